@@ -51,6 +51,9 @@ int current_task(); // -1 outside a task
 /// number of reads depends on what earlier runs already loaded, and a run would not be a function of its plan)
 void set_io_points(bool on);
 bool io_points();
+/// true when an allocation made right now by the calling thread may be a schedule point: pristine-process run,
+/// inside a task, and not inside one of the scheduler's own wrappers (whose bookkeeping must stay atomic)
+bool alloc_point_ok();
 
 /// process-wide counters (also outside the scheduler): used by `bxsim catalogue`
 i64 total_qng_calls();
